@@ -29,6 +29,9 @@ fn run_inner(case: &str, args: &Value) -> Option<Outcome> {
         "c08_num" | "c08_num_search_maximum" | "c08_num_search_minimum" | "c08_num_search_multiple_of" => Some(c08::num(args)),
         "c08_len" => Some(c08::len(args)),
         "c07_int" => Some(c07::int(args)),
+        "c07_enum" => Some(c07::enum_case(args)),
+        "c07_simple" => Some(c07::simple(args)),
+        "c07_float" => Some(c07::float_case(args)),
         "c20_policy" => Some(c20_policy::policy(args)),
         "c10_depth" => Some(c10::depth_case(args)),
         "c10_directives" => Some(c10::directives_case(args)),
@@ -48,6 +51,9 @@ pub fn search(case: &str, seed: u64, open: &[String]) -> Option<SearchResult> {
         "c08_num_search_multiple_of" => Box::new(c08::num_inputs("multiple_of", seed)),
         "c08_len" => Box::new(c08::len_inputs(seed)),
         "c07_int" => Box::new(c07::int_inputs(seed)),
+        "c07_enum" => Box::new(c07::enum_inputs(seed)),
+        "c07_simple" => Box::new(c07::simple_inputs(seed)),
+        "c07_float" => Box::new(c07::float_inputs(seed, open)),
         "c20_policy" => Box::new(c20_policy::inputs(seed)),
         "c10_depth" | "c10_directives" => Box::new(c10::doc_inputs(seed)),
         "c33_subtype" => Box::new(c33::inputs(seed)),
